@@ -9,8 +9,13 @@
 (*                frames, format(image, spec), BaseImage._format_render,    *)
 (*                draw());                                                  *)
 (*   pad, api     the padding AS REQUESTED (possibly relative; for the old  *)
-(*                API the h_align/width/v_align/height arguments), fill,    *)
-(*                and the terminal size tw x th the library saw;            *)
+(*                API the h_align/width/v_align/height arguments) and the   *)
+(*                terminal size tw x th the library saw;                    *)
+(*   fill, ftoks  "none" (empty fill) or "cell" + the token stream of the   *)
+(*                fill STRING on its own: any string occupying one column   *)
+(*                (one code point, an SGR-wrapped glyph, base + combining   *)
+(*                character).  What a fill CELL is, is derived here by      *)
+(*                interpreting ftoks on a fresh terminal (FillT);           *)
 (*   apw, aph     the padded size the library reported (-1: the API does    *)
 (*                not report one).                                          *)
 (*                                                                         *)
@@ -57,16 +62,56 @@ Cells(r1, c1, h, w) == {<<rr, cc>> : rr \in r1..(r1 + h - 1), cc \in c1..(c1 + w
 Box(tr, ps) == Cells(ps.r0, ps.c0, PH(tr), PW(tr))
 InnerB(tr, ps) == Cells(ps.r0 + Dm(tr).t, ps.c0 + Dm(tr).l, tr.rh, tr.rw)
 
-FillCell(tr) == [g |-> tr.fill, ch |-> tr.fch, fg |-> DefaultColor, bg |-> DefaultColor]
+(* ---- interpreter extension (own to this module; Terminal.tla is shared) ---- *)
+(* Terminal cells record glyph and colours.  A fill may also carry non-colour   *)
+(* attributes (dim, bold, ...) and combining characters; both are folded into   *)
+(* the cell's glyph tag so that cell equality sees them:                        *)
+(*   print under attributes S # {}  ->  g = <class> "@" ToString(S)             *)
+(*   comb (combining code point m)  ->  appended to the last printed cell        *)
+(* `garbled` = a sequence of the padded output that the lexer does not know      *)
+(* although the inner render and the fill lex cleanly on their own.              *)
+AttrTag(S) == IF S = {} THEN "" ELSE "@" \o ToString(S)
+
+ApplyX(T, t, gfx) ==
+  CASE t.k = "comb" ->
+         LET p == IF T.pw THEN <<AbsRow(T), T.c>> ELSE <<AbsRow(T), T.c - 1>> IN
+         IF p \in DOMAIN T.cells
+           THEN [T EXCEPT !.cells[p].g = @ \o "+" \o ToString(t.m), !.ntok = @ + 1]
+           ELSE [Fail(T, "combining character without a base cell") EXCEPT !.ntok = @ + 1]
+    [] t.k = "print" /\ T.attrs # {} /\ ~T.pw ->
+         LET T1 == Apply(T, t, gfx)
+             span == RowSpan(AbsRow(T), T.c, Min(T.c + t.n, T.cols) - 1)
+         IN [T1 EXCEPT !.cells = [p \in DOMAIN T1.cells |->
+                                    IF p \in span THEN [T1.cells[p] EXCEPT !.g = @ \o AttrTag(T.attrs)]
+                                    ELSE T1.cells[p]]]
+    [] t.k = "garbled" -> [T EXCEPT !.ntok = @ + 1]   \* judged by StepClause
+    [] OTHER -> Apply(T, t, gfx)
 
 RECURSIVE Fold(_, _, _, _)
-Fold(T, toks, gfx, i) == IF i > Len(toks) THEN T ELSE Fold(Apply(T, toks[i], gfx), toks, gfx, i + 1)
+Fold(T, toks, gfx, i) == IF i > Len(toks) THEN T ELSE Fold(ApplyX(T, toks[i], gfx), toks, gfx, i + 1)
+
+(* the fill string on its own, at the left of a fresh 2-column line *)
+FillT(tr) == Fold(NewTerminal(2, 1, 0, 0), tr.ftoks, <<>>, 1)
+FillCell(tr) == CellAt(FillT(tr), 0, 0)
+\* documented precondition: the fill occupies exactly one column (and nothing else)
+FillOK(tr) ==
+  LET F == FillT(tr) IN
+  /\ F.err = "" /\ F.c = 1 /\ F.r = 0 /\ ~F.pw /\ F.lfs = 0 /\ F.wraps = 0
+  /\ Touched(F) = {<<0, 0>>}
+  /\ \A i \in DOMAIN tr.ftoks : tr.ftoks[i].k \in {"print", "sgr", "comb"}
+FillResets(tr) == SgrDefault(FillT(tr))
+
+\* does line i (0-based, within the box) of the padded output end with a fill cell?
+EndsWithFill(tr, i) == i < Dm(tr).t \/ i >= Dm(tr).t + tr.rh \/ Dm(tr).r > 0
 
 (* ---- clauses ---------------------------------------------------------------- *)
 
-\* after every token of the padded output
-StepClause(tr, ps, S) ==
+\* after every token tk of the padded output (S0 = state before it, S = after)
+StepClause(tr, ps, S0, S, tk) ==
   IF S.err # "" THEN S.err
+  ELSE IF tk.k \in {"abort", "partial", "garbled"} THEN "broken-control-sequence: the padded output contains a cut-open control sequence"
+  ELSE IF tk.k = "lf" /\ tr.fill # "none" /\ FillResets(tr) /\ EndsWithFill(tr, S0.r - ps.r0) /\ ~SgrDefault(S0)
+    THEN "sgr-leak-after-fill: text attributes are not default after a fill cell that resets them"
   ELSE IF S.wraps > 0 THEN "wrap: padded output wrapped at the right margin"
   ELSE IF S.scrolls > 0 THEN "scroll: padded output scrolled the screen"
   ELSE IF ~(Touched(S) \subseteq Box(tr, ps)) THEN "touched-outside-box: a cell outside the padded box changed"
@@ -103,14 +148,15 @@ InnerClause(tr, ps, Sa, Sb) ==
        THEN "placement-differs: an image placement of the original render is not reproduced at its aligned offset"
      ELSE "ok"
 
-\* every other cell of the box: the fill glyph with default attributes
+\* every other cell of the box: the fill cell (the fill string interpreted on its own)
 FillClause(tr, ps, S) ==
   IF tr.fill = "none" THEN "ok"
-  ELSE IF \A c \in Box(tr, ps) \ InnerB(tr, ps) :
-            /\ c \in DOMAIN S.cells /\ S.cells[c] = FillCell(tr)
-            /\ c \notin PlacementCover(S)
-    THEN "ok"
-    ELSE "fill-cell: a padding cell does not hold the fill glyph with default attributes"
+  ELSE LET fc == FillCell(tr)
+           cover == PlacementCover(S)
+       IN IF \A c \in Box(tr, ps) \ InnerB(tr, ps) :
+               c \in DOMAIN S.cells /\ S.cells[c] = fc /\ c \notin cover
+            THEN "ok"
+            ELSE "fill-cell: a padding cell does not hold exactly one fill cell (the whole fill string)"
 
 EndClause(tr, ps, Sa, Sb) ==
   LET n == Len(tr.toks) IN
@@ -120,6 +166,8 @@ EndClause(tr, ps, Sa, Sb) ==
   ELSE IF Sb.r # ps.r0 + PH(tr) - 1 THEN "cursor-end-row: cursor not on the last line of the padded box"
   ELSE IF Sb.c # Min(ps.c0 + PW(tr), ps.cols - 1) THEN "cursor-end-col: cursor not just past the right edge of the padded box"
   ELSE IF Sb.lfs # PH(tr) - 1 THEN "newline-count: not exactly padded_height-1 newlines"
+  ELSE IF tr.fill # "none" /\ FillResets(tr) /\ EndsWithFill(tr, PH(tr) - 1) /\ ~SgrDefault(Sb)
+    THEN "sgr-leak-after-fill: text attributes are not default after a fill cell that resets them"
   ELSE IF <<Sb.fg, Sb.bg, Sb.attrs>> # <<Sa.fg, Sa.bg, Sa.attrs>> THEN "sgr-state-differs: text attributes after the padded output differ from those after the render"
   ELSE IF n > 0 /\ tr.toks[n].k = "lf" THEN "ends-with-newline"
   ELSE IF n > 0 /\ tr.toks[n].k = "partial" THEN "incomplete-sequence: output ends inside a control sequence"
@@ -138,14 +186,17 @@ Init ==
   /\ l = 0
   /\ A = Fold(NewTerminal(pos.cols, pos.rows, pos.r0, pos.c0), Traces[tid].itoks, Traces[tid].igfx, 1)
   /\ B = NewTerminal(pos.cols, pos.rows, pos.r0, pos.c0)
-  /\ verdict = IF A.err = "" THEN "ok" ELSE "inner-render: " \o A.err
+  /\ verdict = IF A.err # "" THEN "inner-render: " \o A.err
+               ELSE IF Traces[tid].fill # "none" /\ ~FillOK(Traces[tid])
+                 THEN "fill-precondition: the fill string does not occupy exactly one column"
+               ELSE "ok"
   /\ at = 0
 
 Consume ==
   /\ l < N
   /\ l' = l + 1
-  /\ B' = Apply(B, Tr.toks[l + 1], Tr.gfx)
-  /\ LET v == IF verdict # "ok" THEN verdict ELSE StepClause(Tr, pos, B') IN
+  /\ B' = ApplyX(B, Tr.toks[l + 1], Tr.gfx)
+  /\ LET v == IF verdict # "ok" THEN verdict ELSE StepClause(Tr, pos, B, B', Tr.toks[l + 1]) IN
        /\ verdict' = v
        /\ at' = IF verdict = "ok" /\ v # "ok" THEN l + 1 ELSE at
   /\ UNCHANGED <<tid, pos, A>>
